@@ -400,8 +400,11 @@ func (h *hist) genDashes() {
 		}
 	}
 	off := rng.Pick(h.r, []float64{0, 0, 0.5, 1, 2.5, 7, 40})
-	if allPos && len(d) > 0 && h.r.P(1, 4) { // negative offsets only without zeros and above -min(d): dashStart's offset < -period region is C05's
-		off = -minPos / 2
+	if h.r.P(1, 4) { // negative offsets, also below minus one period (dashStart reduces them modulo the period)
+		off = rng.Pick(h.r, []float64{-0.25, -1, -2.5, -7, -40, -minPos / 2})
+		if math.IsInf(off, 0) {
+			off = -3
+		}
 	}
 	if allPos && len(d) >= 2 && h.r.P(1, 4) { // start inside the first gap: short paths lose their stroke
 		off = d[0] + d[1]/4
@@ -530,6 +533,11 @@ func (h *hist) newPoint() (float64, float64) {
 	}
 }
 
+// extends reports whether segment b is collinear with segment a and points the same way
+func extends(ax, ay, bx, by float64) bool {
+	return ax*by-ay*bx == 0 && ax*bx+ay*by > 0
+}
+
 func (h *hist) pathCmd() {
 	switch {
 	case h.pstate == 0 || h.pstate == 3:
@@ -538,7 +546,7 @@ func (h *hist) pathCmd() {
 		h.shadow.MoveTo(x, y)
 		h.sx, h.sy, h.lx, h.ly = x, y, x, y
 		h.pstate = 1
-	case h.pstate == 1 || h.r.P(2, 3) || (h.lx-h.px)*(h.sy-h.ly)-(h.ly-h.py)*(h.sx-h.lx) == 0: // (Close merges a parallel last segment too)
+	case h.pstate == 1 || h.r.P(2, 3) || extends(h.lx-h.px, h.ly-h.py, h.sx-h.lx, h.sy-h.ly): // (Close merges an equidirectional last segment too)
 		var x, y float64
 		for try := 0; ; try++ {
 			x, y = h.newPoint()
@@ -552,9 +560,10 @@ func (h *hist) pathCmd() {
 			if (x == h.lx && y == h.ly) || (x == h.sx && y == h.sy) {
 				continue
 			}
-			// Path.LineTo merges a segment that is parallel to the previous one (path builder, property C10): the
-			// model appends commands verbatim, so consecutive parallel segments are not generated
-			if h.pstate == 2 && (h.lx-h.px)*(y-h.ly)-(h.ly-h.py)*(x-h.lx) == 0 {
+			// Path.LineTo merges a segment that extends the previous one in the same direction (intended path
+			// builder behaviour, property C10): the model appends commands verbatim, so such extensions are not
+			// generated; reversing collinear segments are kept as they are and are generated
+			if h.pstate == 2 && extends(h.lx-h.px, h.ly-h.py, x-h.lx, y-h.ly) {
 				continue
 			}
 			break
